@@ -1,6 +1,7 @@
 package main
 
 import (
+	"sync/atomic"
 	"fmt"
 	"math"
 	"regexp"
@@ -216,6 +217,9 @@ type storageRunner struct {
 	st          *verifhook.Storage
 	allow, deny *regexp.Regexp
 	app         *protocol.ApplicationContext
+	served      int64 // storage requests answered through the channel
+	ev          *verifhook.Evaluator
+	evRef       time.Time
 }
 
 // serve answers storage requests arriving on the application's storage channel (as the storage
@@ -233,6 +237,7 @@ func (s *storageRunner) serve() {
 			}()
 			s.st.Handle(req)
 		}()
+		atomic.AddInt64(&s.served, 1)
 	}
 }
 
@@ -498,6 +503,49 @@ func (s *storageRunner) step(r *runner, line string) {
 			res += " tick"
 		}
 		r.resolve("S status %d %s %s %s %s %s", now, f[2], f[3], f[4], f[5], f[6])
+		r.reply("%s", res)
+	case "cacheinit":
+		// S cacheinit <expire> <minbits> <allowed>: a persistent evaluator with its goswarm cache
+		bits, _ := strconv.ParseUint(f[3], 16, 32)
+		allowed, _ := strconv.ParseUint(f[4], 10, 64)
+		ev, err := verifhook.NewEvaluator(s.app, int(atoi(f[2])), math.Float32frombits(uint32(bits)), allowed)
+		r.resolve("%s", line)
+		if err != nil {
+			r.reply("bad-op")
+			return
+		}
+		s.ev, s.evRef = ev, time.Now()
+		r.reply("ok")
+	case "cage":
+		r.resolve("%s", line)
+		s.ev.AgeCache(time.Duration(atoi(f[2])) * time.Millisecond)
+		r.reply("ok")
+	case "cq":
+		// S cq <cluster> <group> <showall>: a status request through the persistent evaluator (cache)
+		now := stableNow()
+		// freeze: cancel the real time that passed since the last synchronisation point
+		t := time.Now()
+		s.ev.AgeCache(-t.Sub(s.evRef))
+		s.evRef = t
+		before := atomic.LoadInt64(&s.served)
+		req := &protocol.EvaluatorRequest{Cluster: unhexName(f[2]), Group: unhexName(f[3]), ShowAll: f[4] == "1", Reply: make(chan *protocol.ConsumerGroupStatus, 1)}
+		res := guard(func() string {
+			s.ev.GetConsumerStatus(req)
+			st := <-req.Reply
+			if st.Status == protocol.StatusNotFound {
+				// a cached error is answered at once and refreshed in the background: let that refresh finish
+				deadline := time.Now().Add(time.Second)
+				for atomic.LoadInt64(&s.served) == before && time.Now().Before(deadline) {
+					time.Sleep(200 * time.Microsecond)
+				}
+				time.Sleep(2 * time.Millisecond)
+			}
+			return fmt.Sprintf("rc=%s rg=%s %s", hexName(st.Cluster), hexName(st.Group), renderGroupStatus(st))
+		})
+		if time.Now().Unix() != now {
+			res += " tick"
+		}
+		r.resolve("S cq %d %s %s %s", now, f[2], f[3], f[4])
 		r.reply("%s", res)
 	case "consumer":
 		now := stableNow()
